@@ -176,7 +176,12 @@ impl Op {
             let _ = write!(s, " fault={}@{}", f.kind.name(), f.at_permille);
         }
         if self.fail_at > 0 {
-            let _ = write!(s, " provider-fails-at-call={}", self.fail_at);
+            let _ = write!(
+                s,
+                " provider-fails-{}-call={}",
+                if self.fail_at & 0x100 != 0 { "from" } else { "at" },
+                self.fail_at & 0xff
+            );
         }
         s.push(')');
         s
@@ -220,9 +225,13 @@ impl FailingProvider {
             fired: Default::default(),
         }
     }
+    /// `fail_at` = k: only the k-th call fails (transient failure);
+    /// `fail_at` = 256 + k: every call from the k-th on fails (the provider
+    /// stays broken).
     fn tick(&self) -> TemporalResult<()> {
         self.calls.set(self.calls.get() + 1);
-        if self.calls.get() == self.fail_at {
+        let (k, persistent) = (self.fail_at & 0xff, self.fail_at & 0x100 != 0);
+        if self.calls.get() == k || (persistent && self.calls.get() > k) {
             self.fired.set(true);
             return Err(TemporalError::general("injected provider failure"));
         }
